@@ -240,5 +240,36 @@ def run(F, tier, res):
             else:
                 res.violate('ORDER', 'fn=%s' % p, 'the plain-text grep regexes are tried in the order %s, documented (most specific first): %s' % (order, VARIANT_ORDER), where=F.bodies[p]['mir']['span']['at'])
     res.rule('C16.ORDER', no, 1, 'array of plain-text grep regexes in parse_grep_line (statics -> variants: %s)' % static_variant, discharged=oko)
+    # ---------- SHIFT: submatch coordinates are moved by a quantity measured on the expanded text
+    ns = oks = 0
+    ets = [p for p in F.fn_bodies if 'handlers::grep' in p and any(callee_of(c).endswith('tabs::expand') for _, c in F.calls(p))
+           and Ru.field_writes(F, p, None, 'submatches')]
+    MEASURE = ('::len', '::width', '::count', '::chars', '::char_indices', '::graphemes', '::find', '::position')
+    for p in ets:
+        exp_bbs = [i for i, c in F.calls(p) if callee_of(c).endswith('tabs::expand')]
+        dom = F.dominators(p)
+        for w in Ru.field_writes(F, p, None, 'submatches'):
+            if w[2] != 'assign':
+                continue
+            ns += 1
+            roots = []
+            for x in w[3][2][1:]:
+                if isinstance(x, dict):
+                    roots += F.trace(p, x, deep=True)
+            post = False
+            for r in roots:
+                if r[0] == 'call' and r[1].endswith(MEASURE) and any(e in dom.get(r[2], ()) for e in exp_bbs):
+                    for a in r[4]['args'][:1]:
+                        for rr in F.trace(p, a):
+                            if (rr[0] in ('local', 'param') and rr[2] and rr[2][-1] == 'code') or (rr[0] == 'call' and rr[1].endswith('tabs::expand')):
+                                post = True
+                if r[0] == 'call' and r[1].endswith('tabs::expand'):
+                    post = True
+            if post:
+                oks += 1
+            else:
+                res.violate('SHIFT', 'fn=%s' % p, 'the offset applied to the rg --json submatch coordinates is not measured on the tab-expanded text (no length / width / position taken from '
+                            'the expansion result flows into it): the shift and the expansion can disagree, highlighting the wrong span', where=F.bodies[p]['mir']['span']['at'])
+    res.rule('C16.SHIFT', ns, 1, 'writes to GrepLine.submatches next to tab expansion: the offset depends on a measurement of the expanded text', discharged=oks)
     res.distinct.update(r['rule'] for r in res.rules)
     return res
